@@ -271,10 +271,15 @@ def convert_digest(recipe, again=False, as_fragment=False):
     text = rtlil.convert(top, ports=ports)
     if again:
         # the very same object once more: elaboration must not leave anything behind that changes the result
+        cwd0 = os.getcwd()
         try:
+            # (from another working directory: where the process happens to stand is not part of the design)
+            os.chdir(os.path.dirname(cwd0.rstrip("/")) or "/")
             text2 = rtlil.convert(top, ports=ports)
         except Exception as e:
             return "SECOND-CONVERSION-FAILED:" + type(e).__name__, text
+        finally:
+            os.chdir(cwd0)
         if text2 != text:
             return "SAME-OBJECT-DIFFERS", text
         if before != [dict(p.attrs) for p in ports if hasattr(p, "attrs")]:
